@@ -232,6 +232,7 @@ def xml_structural(req, proto):
     """(kind, label, bytes) single structural mutations of an XML request"""
     root = etree.fromstring(req)
     elems = [e for e in root.iter() if isinstance(e.tag, str)]
+    member_names = sorted(set(etree.QName(x).localname for x in elems))[:6]
     for idx, e in enumerate(elems):
         name = etree.QName(e).localname
         parent = e.getparent()
@@ -256,6 +257,22 @@ def xml_structural(req, proto):
         e.set('bogus', '1')
         yield 'add-attr', '%s#%d' % (name, idx), etree.tostring(root)
         del e.attrib['bogus']
+        # an attribute named like a member (element) of the document
+        for an in member_names:
+            if an in e.attrib:
+                continue
+            e.set(an, 'x')
+            yield 'add-attr-named-like-member', '%s#%d@%s' % (name, idx, an), etree.tostring(root)
+            del e.attrib[an]
+        # nodes that are neither elements nor text, as first child: an unexpanded entity reference, a comment, a PI
+        for nk, node in (('entity-ref', etree.Entity('vfent')), ('comment', etree.Comment(' c ')), ('pi', etree.ProcessingInstruction('vf', 'x'))):
+            e.insert(0, node)
+            doc = etree.tostring(root)
+            if nk == 'entity-ref':
+                rq = etree.QName(root)
+                doc = ('<!DOCTYPE %s [<!ENTITY vfent "ent">]>' % ((root.prefix + ':' if root.prefix else '') + rq.localname)).encode() + doc
+            yield 'add-' + nk + '-node', '%s#%d' % (name, idx), doc
+            e.remove(node)
         if parent is not None:
             pos = list(parent).index(e)
             parent.remove(e)
